@@ -13,7 +13,7 @@ namespace SppModel.Tie
 open SppModel SppModel.Generated.FftLengths
 
 theorem fft_lengths_translated : ∀ f ∈ translationFailures,
-    f.1 ∉ ["fftconvolve_lengths", "ifft_length", "FftLengths_does_not_elaborate"] := by decide
+    f.1 ∉ ["fftconvolve_lengths", "ifft_length", "correlate", "FftLengths_does_not_elaborate"] := by decide
 
 /-- the three transforms of `fftconvolve` all get the explicit size (none relies on a default length) -/
 theorem fftconv_explicit : fftconvAllTransformsExplicit = true := by decide
@@ -32,5 +32,10 @@ theorem ifft_len_is_model (nsamps nbins : Nat) :
   repeat' split
   all_goals simp_all
   all_goals omega
+
+/-- `TimeSeries.correlate` is the model's correlation for every pair of operands: the convolution with the reversed
+    second operand, whatever the two arrays are (the same array, overlapping windows of one buffer, ...) -/
+theorem correlate_is_model (N : Nat) (a b : List Int) :
+    correlate (Conv.fftconvolve N) a b = Conv.correlate N a b := rfl
 
 end SppModel.Tie
